@@ -1,7 +1,8 @@
 From UV Require Export Base.Common Model.Resume.
 (* What the runner observed for one connection of a history. *)
 Record seen := mkSeen {
-  n_class : N;        (* 0 completed; 1 empty-psk error; 2 psk+hrr error; 3 server EMS abort; 4 version; 5 other error; 6 client panic *)
+  n_tamper : bool;    (* before the connection the runner corrupted the cached secret under the connection's key *)
+  n_class : N;        (* 7 server: invalid PSK binder; 8 client: cannot read the server's Finished; 0 completed; 1 empty-psk error; 2 psk+hrr error; 3 server EMS abort; 4 version; 5 other error; 6 client panic *)
   n_resumed : bool;   (* DidResume, client and server agree *)
   n_offer : N;        (* 0 none; 1 session_ticket body non-empty; 2 pre_shared_key present *)
   n_ems : bool;       (* hello carries extended_master_secret *)
@@ -26,8 +27,8 @@ Inductive case :=
 Definition class_of (o : outcome) : N :=
   match o with
   | Done _ => 0
-  | CliErr e => if e =? E_EMPTY_PSK then 1 else if e =? E_PSK_HRR then 2 else 5
-  | SrvErr e => if e =? E_SRV_EMS then 3 else if e =? E_VERSION then 4 else 5
+  | CliErr e => if e =? E_EMPTY_PSK then 1 else if e =? E_PSK_HRR then 2 else if e =? E_FINISHED then 8 else 5
+  | SrvErr e => if e =? E_SRV_EMS then 3 else if e =? E_VERSION then 4 else if e =? E_BINDER then 7 else 5
   | CliPanic _ => 6
   end.
 Definition offer_code (o : obs) : N :=
@@ -45,7 +46,7 @@ Fixpoint check_hist (ca : cache) (h : list (conn * seen)) : bool :=
   match h with
   | [] => true
   | (c, n) :: r =>
-    let (ca', o) := step ca c in
+    let (ca', o) := step (if n_tamper n then mark_bad (c_name c) ca else ca) c in
     (class_of (o_out o) =? n_class n) &&
     Bool.eqb (resumed o) (n_resumed n) &&
     (offer_code o =? n_offer n) &&
